@@ -125,12 +125,21 @@ def weave(ws, vcopy):
 # --------------------------------------------------------------------------- kani
 
 def limit_mem(gb):
+    # no RLIMIT_AS: the Kani compiler reserves far more address space than it uses and aborts under a
+    # virtual-memory limit; memory is guarded by the watchdog in run_kani instead
     def f():
         os.setsid()
-        if gb:
-            b = int(gb * (1 << 30))
-            resource.setrlimit(resource.RLIMIT_AS, (b, b))
     return f
+
+
+def mem_available_gb():
+    try:
+        for l in open("/proc/meminfo"):
+            if l.startswith("MemAvailable:"):
+                return int(l.split()[1]) / (1 << 20)
+    except Exception:
+        pass
+    return 1e9
 
 
 def run_kani(ws, crate, harnesses, flags, jobs, timeout_s, out_json, logf, extra=None, mem_gb=None):
@@ -152,12 +161,19 @@ def run_kani(ws, crate, harnesses, flags, jobs, timeout_s, out_json, logf, extra
         lf.flush()
         p = subprocess.Popen(cmd, cwd=ws, env=env, stdout=lf, stderr=subprocess.STDOUT,
                              preexec_fn=limit_mem(mem_gb))
-        try:
-            waves = (len(harnesses) + jobs - 1) // jobs
-            p.wait(timeout=timeout_s * waves + 1800)
-        except subprocess.TimeoutExpired:
-            os.killpg(p.pid, signal.SIGKILL)
-            p.wait()
+        waves = (len(harnesses) + jobs - 1) // jobs
+        deadline = time.time() + timeout_s * waves + 1800
+        while True:
+            try:
+                p.wait(timeout=2)
+                break
+            except subprocess.TimeoutExpired:
+                pass
+            if time.time() > deadline or mem_available_gb() < 2.5:
+                lf.write("\n[runner] killed: %s\n" % ("deadline" if time.time() > deadline else "memory watchdog (MemAvailable < 2.5 GB)"))
+                os.killpg(p.pid, signal.SIGKILL)
+                p.wait()
+                break
     return p.returncode, time.time() - t0, " ".join(cmd)
 
 
